@@ -48,11 +48,20 @@ type Tick struct {
 	Latest    uint64 `json:"latest"` // ... for "latest" / nil / "pending"
 	L1Err     bool   `json:"l1_err,omitempty"`
 	L1ErrOnce bool   `json:"l1_err_once,omitempty"` // only the FIRST request to the L1 client in this tick fails (a transient error)
-	Lpb       uint64 `json:"lpb"` // last block the info-tree syncer has processed when the tick runs (non-decreasing)
+	Lpb       uint64 `json:"lpb"`                   // last block the info-tree syncer has processed when the tick runs (non-decreasing)
 	InfoErr   bool   `json:"info_err,omitempty"`
 	L2Add     []int  `json:"l2_add,omitempty"` // indices of leaves whose GER somebody else put on L2 before this tick
 	IsInjErr  bool   `json:"isinj_err,omitempty"`
 	InjectErr bool   `json:"inject_err,omitempty"`
+	Reorg     *Reorg `json:"reorg,omitempty"` // the L1 chain is reorganised BEFORE this tick (and the syncer follows the new fork up to Lpb)
+}
+
+// Reorg replaces the L1 history from block B on: the leaves of blocks >= B disappear, Leaves (blocks >= B) take their place.
+// The leaves of all forks of a case form one pool: in.Leaves first, then the leaves of each reorg in tick order; l2_add
+// indexes the pool and is kept only when the leaf is in the history that is canonical at that tick.
+type Reorg struct {
+	B      uint64 `json:"b"`
+	Leaves []Leaf `json:"leaves,omitempty"`
 }
 
 type In struct {
@@ -72,10 +81,12 @@ type TickObs struct {
 }
 
 type Out struct {
-	In   In        `json:"in"`
-	Gers []string  `json:"gers"` // GER of each leaf as the real store reports it / as GetGlobalExitRoot computes it
-	Obs  []TickObs `json:"obs"`
-	Err  string    `json:"err,omitempty"` // harness-level problem (unusable input)
+	In   In       `json:"in"`
+	Gers []string `json:"gers"` // GER of each leaf of the pool as GetGlobalExitRoot computes it
+	// only for cases with a reorg: per tick, the pool indices (L1 order) of the leaves of the history canonical at that tick
+	Hists [][]int   `json:"hists,omitempty"`
+	Obs   []TickObs `json:"obs"`
+	Err   string    `json:"err,omitempty"` // harness-level problem (unusable input)
 }
 
 // ---------------------------------------------------------------------------------------------
@@ -210,23 +221,36 @@ func sanitize(in In) In {
 		in.Finality = "FinalizedBlock"
 	}
 	seen := map[string]bool{}
-	var ls []Leaf
-	for _, l := range in.Leaves {
-		m, r := h32(l.Mer), h32(l.Rer)
-		k := m.Hex() + r.Hex()
-		if l.B == 0 || seen[k] {
-			continue
+	clean := func(raw []Leaf, minB uint64) []Leaf {
+		var ls []Leaf
+		for _, l := range raw {
+			m, r := h32(l.Mer), h32(l.Rer)
+			k := m.Hex() + r.Hex()
+			if l.B == 0 || l.B < minB || seen[k] {
+				continue
+			}
+			seen[k] = true
+			ls = append(ls, Leaf{B: l.B, Mer: hlib.Hex(m[:]), Rer: hlib.Hex(r[:])})
 		}
-		seen[k] = true
-		ls = append(ls, Leaf{B: l.B, Mer: hlib.Hex(m[:]), Rer: hlib.Hex(r[:])})
+		sort.SliceStable(ls, func(i, j int) bool { return ls[i].B < ls[j].B })
+		return ls
 	}
-	sort.SliceStable(ls, func(i, j int) bool { return ls[i].B < ls[j].B })
-	in.Leaves = ls
+	in.Leaves = clean(in.Leaves, 0)
+	// canonical history as pool indices, updated along the ticks
+	var blocks []uint64 // block of each pool leaf
+	var hist []int
+	for k, l := range in.Leaves {
+		blocks = append(blocks, l.B)
+		hist = append(hist, k)
+	}
 	keep := func(ix []int) []int {
 		var o []int
 		for _, k := range ix {
-			if k >= 0 && k < len(ls) {
-				o = append(o, k)
+			for _, h := range hist {
+				if h == k {
+					o = append(o, k)
+					break
+				}
 			}
 		}
 		return o
@@ -235,6 +259,24 @@ func sanitize(in In) In {
 	var lpb uint64
 	ts := make([]Tick, len(in.Ticks))
 	for i, t := range in.Ticks {
+		if t.Reorg != nil {
+			if t.Reorg.B == 0 {
+				t.Reorg.B = 1
+			}
+			r := &Reorg{B: t.Reorg.B, Leaves: clean(t.Reorg.Leaves, t.Reorg.B)}
+			t.Reorg = r
+			var nh []int
+			for _, k := range hist {
+				if blocks[k] < r.B {
+					nh = append(nh, k)
+				}
+			}
+			for _, l := range r.Leaves {
+				nh = append(nh, len(blocks))
+				blocks = append(blocks, l.B)
+			}
+			hist = nh
+		}
 		if t.Lpb < lpb {
 			t.Lpb = lpb
 		}
@@ -267,8 +309,22 @@ func run(in In) (out Out) {
 		}
 	}()
 
-	gers := make([]common.Hash, len(in.Leaves))
-	for i, l := range in.Leaves {
+	// the pool of leaves of all forks; hist = the canonical history (pool indices in L1 order)
+	pool := append([]Leaf{}, in.Leaves...)
+	hasReorg := false
+	for _, t := range in.Ticks {
+		if t.Reorg != nil {
+			hasReorg = true
+			pool = append(pool, t.Reorg.Leaves...)
+		}
+	}
+	var hist []int
+	for k := range in.Leaves {
+		hist = append(hist, k)
+	}
+	poolNext := len(in.Leaves) // next pool index a reorg will introduce
+	gers := make([]common.Hash, len(pool))
+	for i, l := range pool {
 		lf := l1infotreesync.L1InfoTreeLeaf{MainnetExitRoot: h32(l.Mer), RollupExitRoot: h32(l.Rer)}
 		gers[i] = lf.GetGlobalExitRoot()
 		out.Gers = append(out.Gers, hlib.Hex(gers[i][:]))
@@ -290,18 +346,50 @@ func run(in In) (out Out) {
 
 	var target uint64 // the loop variable `blockNumToFetch` of Start
 	var lpb uint64    // what the store has been fed so far
-	next := 0         // next leaf to feed
+	next := 0         // position in hist of the next leaf to feed
 	feed := func(num uint64, evs []interface{}) error {
 		return real.VerifC15ProcessBlock(ctx, sync.Block{Num: num, Hash: common.BigToHash(new(big.Int).SetUint64(num)), Events: evs})
 	}
+	leafAt := func(pos int) Leaf { return pool[hist[pos]] }
 	for _, t := range in.Ticks {
+		if r := t.Reorg; r != nil {
+			// the L1 chain is reorganised from block r.B on: the real processor drops what it had from there (when it had got
+			// that far), the canonical history loses its leaves >= r.B and gains the ones of the new fork
+			if lpb >= r.B {
+				if err := l1infotreesync.VerifC14Reorg(ctx, real, r.B); err != nil {
+					out.Err = "reorg: " + err.Error()
+					return
+				}
+			}
+			var nh []int
+			fed := 0
+			for pos, k := range hist {
+				if pool[k].B < r.B {
+					nh = append(nh, k)
+					if pos < next {
+						fed++
+					}
+				}
+			}
+			for range r.Leaves {
+				nh = append(nh, poolNext)
+				poolNext++
+			}
+			hist, next = nh, fed
+			if lpb >= r.B {
+				lpb = r.B - 1 // every block >= r.B is gone; the tick's Lpb (>= the old one) is fed again below
+			}
+		}
+		if hasReorg {
+			out.Hists = append(out.Hists, append([]int{}, hist...))
+		}
 		// the syncer advances to t.Lpb: every leaf-bearing block <= t.Lpb, then block t.Lpb itself
-		for next < len(in.Leaves) && in.Leaves[next].B <= t.Lpb {
-			b := in.Leaves[next].B
+		for next < len(hist) && leafAt(next).B <= t.Lpb {
+			b := leafAt(next).B
 			var evs []interface{}
-			for pos := uint64(0); next < len(in.Leaves) && in.Leaves[next].B == b; pos, next = pos+1, next+1 {
+			for pos := uint64(0); next < len(hist) && leafAt(next).B == b; pos, next = pos+1, next+1 {
 				evs = append(evs, l1infotreesync.Event{UpdateL1InfoTree: &l1infotreesync.UpdateL1InfoTree{
-					BlockPosition: pos, MainnetExitRoot: h32(in.Leaves[next].Mer), RollupExitRoot: h32(in.Leaves[next].Rer),
+					BlockPosition: pos, MainnetExitRoot: h32(leafAt(next).Mer), RollupExitRoot: h32(leafAt(next).Rer),
 					ParentHash: common.BigToHash(new(big.Int).SetUint64(b - 1)), Timestamp: 1000 + b,
 				}})
 			}
@@ -492,6 +580,86 @@ func exhaustive(rng *hlib.Rng) []In {
 	return ins
 }
 
+// reorgBoundary: directed histories with an L1 reorg between two ticks.
+func reorgBoundary(rng *hlib.Rng) []In {
+	var ins []In
+	lf := func(b uint64) Leaf { return Leaf{B: b, Mer: rh(rng), Rer: rh(rng)} }
+	for _, f := range []string{"FinalizedBlock", "SafeBlock", "LatestBlock"} {
+		// the syncer is ahead of the sampled block and holds a root (block 7) that is then reorganised away, the reorg starting
+		// exactly at that block; the new fork has no root up to the blocks sampled afterwards, then one at 12
+		ins = append(ins, In{Kind: "reorg", Finality: f, Leaves: []Leaf{lf(2), lf(5), lf(7)},
+			Ticks: []Tick{{Fin: 5, Safe: 5, Latest: 5, Lpb: 7}, {Fin: 8, Safe: 8, Latest: 8, Lpb: 9, Reorg: &Reorg{B: 7}},
+				{Fin: 9, Safe: 9, Latest: 9, Lpb: 9}, {Fin: 12, Safe: 12, Latest: 12, Lpb: 12, Reorg: &Reorg{B: 10, Leaves: []Leaf{lf(12)}}}}})
+		// same, the reorg starting below / above the newest root's block
+		ins = append(ins, In{Kind: "reorg", Finality: f, Leaves: []Leaf{lf(2), lf(5), lf(7)},
+			Ticks: []Tick{{Fin: 5, Safe: 5, Latest: 5, Lpb: 7}, {Fin: 8, Safe: 8, Latest: 8, Lpb: 9, Reorg: &Reorg{B: 6}},
+				{Fin: 9, Safe: 9, Latest: 9, Lpb: 9}}})
+		ins = append(ins, In{Kind: "reorg", Finality: f, Leaves: []Leaf{lf(2), lf(5), lf(7)},
+			Ticks: []Tick{{Fin: 5, Safe: 5, Latest: 5, Lpb: 7}, {Fin: 8, Safe: 8, Latest: 8, Lpb: 9, Reorg: &Reorg{B: 8, Leaves: []Leaf{lf(8)}}},
+				{Fin: 9, Safe: 9, Latest: 9, Lpb: 9}}})
+		// the sampled block itself is reorganised away while the oracle waits for the syncer: the new fork's root is the answer
+		ins = append(ins, In{Kind: "reorg", Finality: f, Leaves: []Leaf{lf(2), lf(6)},
+			Ticks: []Tick{{Fin: 6, Safe: 6, Latest: 6, Lpb: 3}, {Fin: 6, Safe: 6, Latest: 6, Lpb: 4, Reorg: &Reorg{B: 5, Leaves: []Leaf{lf(5), lf(6)}}},
+				{Fin: 7, Safe: 7, Latest: 7, Lpb: 6}, {Fin: 7, Safe: 7, Latest: 7, Lpb: 8}}})
+		// the injection of the newest root fails, then its block is reorganised away (nothing of the dead fork may be retried)
+		ins = append(ins, In{Kind: "reorg", Finality: f, Leaves: []Leaf{lf(3), lf(4)},
+			Ticks: []Tick{{Fin: 4, Safe: 4, Latest: 4, Lpb: 4, InjectErr: true}, {Fin: 4, Safe: 4, Latest: 4, Lpb: 4, Reorg: &Reorg{B: 4}},
+				{Fin: 6, Safe: 6, Latest: 6, Lpb: 6, Reorg: &Reorg{B: 1, Leaves: []Leaf{lf(1), lf(1)}}}, {Fin: 6, Safe: 6, Latest: 6, Lpb: 6}}})
+	}
+	return ins
+}
+
+// reorgCase: a random schedule with one to three reorgs; most of them start at the block of a root the syncer holds
+// (half of those: the newest one), the others anywhere.
+func reorgCase(rng *hlib.Rng) In {
+	in := randomCase(rng, rng.Intn(3) == 0)
+	in.Kind = "reorg"
+	cur := append([]Leaf{}, in.Leaves...) // canonical history while generating
+	nr := 1 + rng.Intn(3)
+	for r := 0; r < nr && len(in.Ticks) > 0; r++ {
+		ti := rng.Intn(len(in.Ticks))
+		if in.Ticks[ti].Reorg != nil {
+			continue
+		}
+		lpbBefore := uint64(0)
+		if ti > 0 {
+			lpbBefore = in.Ticks[ti-1].Lpb
+		}
+		var held []Leaf
+		for _, l := range cur {
+			if l.B <= lpbBefore {
+				held = append(held, l)
+			}
+		}
+		var b uint64
+		switch {
+		case len(held) > 0 && rng.Intn(4) != 0:
+			if rng.Bool() {
+				b = held[len(held)-1].B
+			} else {
+				b = held[rng.Intn(len(held))].B
+			}
+		default:
+			b = uint64(1 + rng.Intn(int(lpbBefore)+4))
+		}
+		re := &Reorg{B: b}
+		nb := b + uint64(rng.Intn(4))
+		for k := rng.Intn(4); k > 0; k-- {
+			re.Leaves = append(re.Leaves, Leaf{B: nb, Mer: rh(rng), Rer: rh(rng)})
+			nb += uint64(rng.Intn(4))
+		}
+		in.Ticks[ti].Reorg = re
+		var nc []Leaf
+		for _, l := range cur {
+			if l.B < b {
+				nc = append(nc, l)
+			}
+		}
+		cur = append(nc, re.Leaves...)
+	}
+	return in
+}
+
 func gen(f *hlib.Flags) []In {
 	rng := hlib.NewRng(f.Seed)
 	ins := boundary(rng)
@@ -515,6 +683,12 @@ func gen(f *hlib.Flags) []In {
 		default:
 			ins = append(ins, randomCase(rng, true))
 		}
+	}
+	// L1 reorgs between ticks: a stream of its own (own generator state: the schedules above do not move)
+	rrng := hlib.NewRng(f.Seed ^ 0xC15C15)
+	ins = append(ins, reorgBoundary(rrng)...)
+	for i := 0; i < n/3; i++ {
+		ins = append(ins, reorgCase(rrng))
 	}
 	return ins
 }
